@@ -1413,7 +1413,9 @@ def c15(tier, seed):
                     steps.append({"settle": 15})
                 for n in init_to:
                     steps += [{"send": n, "event": "genid"}, {"send": n, "event": "genid"}]
-                steps.append({"settle": 40})
+                # everything sent so far (and the replies it causes) has been processed before the sessions are cancelled,
+                # however slowly the threads are scheduled
+                steps += [{"barrier": True}, {"settle": 30}, {"barrier": True}]
                 jid = len(jobs) + 1
                 job = {"id": jid, "sessions": sessions, "steps": steps, "timeout_ms": 60000}
                 if dm == "ecmascript":
@@ -1444,6 +1446,8 @@ def c15(tier, seed):
                 if x[0] == "M" and x[1] == "recv":
                     a = [tracelib.val_str(y) for y in x[2]]
                     a = ["null" if y == "NONE" else y for y in a]
+                    if a[1].startswith("__sync."):
+                        continue           # the harness' own barrier events
                     recvs.append({"session": a[0], "name": a[1], "qtype": "internal" if a[2] == "internal" else "external",
                                   "sendid": a[3], "origin": a[4], "origintype": a[5], "invokeid": a[6], "data": a[7]})
                     if a[0] not in sids and sl.get("sid") is not None:
@@ -1776,7 +1780,7 @@ def c16_job(jid, cmds, rng, half_ms=C16_HALF_MS, tail_ms=None):
             ev = c["op"]
         steps.append({"send": c["s"], "event": ev})
     maxd = max([c["d"] for c in cmds if c["op"] == "send"] or [0])
-    steps.append({"sleep": tail_ms if tail_ms is not None else maxd * half_ms + 420})
+    steps.append({"sleep": tail_ms if tail_ms is not None else maxd * half_ms + 1000})
     return {"id": jid, "sessions": sessions, "steps": steps, "timeout_ms": 60000}, flist
 
 
@@ -1927,7 +1931,7 @@ def c16(tier, seed):
                    "%d delivered, %d certainly cancelled, %d certainly discarded by termination, %d had to be delivered"
                    % (len(behaviours), len(scens) - len(behaviours), stats[0], stats[1], stats[2], stats[3])}
     vlib.write_evidence("C16", tier, seed, "model_checking", cov, time.time() - t0, len(V.violations),
-                        ["a timer later than 150 ms counts as a lost event; cancellations / terminations within the measured "
+                        ["a timer later than 400 ms counts as a lost event; cancellations / terminations within the measured "
                          "uncertainty of the due time are not judged", "timer and session threads are scheduled by the OS, not enumerated"])
     return rc
 
